@@ -30,9 +30,9 @@ Types == <<
 
 Scalar(ty) == ty.cls \notin {"complex", "pair"}
 \* characteristic values
-SVals(ty) == { v \in {TMin(ty), TMin(ty) + 1, -6, -2, -1, 0, 1, 2, 5, 6, TMax(ty) - 1, TMax(ty)} : InType(ty, v) }
+SVals(ty) == { v \in {TMin(ty), -3, -1, 0, 1, 2, 6, TMax(ty) - 1, TMax(ty)} : InType(ty, v) }
 Vals(ty) == IF ty.cls = "complex" THEN { <<0, 0>>, <<1, 0>>, <<0, 1>>, <<-1, 2>>, <<3, -2>>, <<2, 2>> }
-            ELSE IF ty.cls = "pair" THEN { <<v, j>> : v \in {-2, 0, 5, TMax(ty)}, j \in {0, 1, 3} }
+            ELSE IF ty.cls = "pair" THEN { <<v, j>> : v \in {-2, 5, TMax(ty)}, j \in {0, 1, 3} }
             ELSE SVals(ty)
 RECURSIVE SetToSeq(_)
 SetToSeq(S) == IF S = {} THEN <<>> ELSE LET e == CHOOSE x \in S : TRUE IN <<e>> \o SetToSeq(S \ {e})
@@ -54,10 +54,10 @@ Eval(x) == CASE x.k = "rl" -> EvalRl(x) [] x.k = "ar" -> EvalAr(x) [] x.k = "rma
 
 \* ------------------------------------------------------------------ small scope
 PairsOf(op, ty) ==
-  LET V == Vals(ty)
-      ok == IF Support(op, ty) = "no" THEN { <<a, b>> \in V \X V : a = b }
-            ELSE { p \in V \X V : Safe(op, ty, p[1], p[2]) /\ Fits(ty, Apply(op, ty, p[1], p[2])) }
-  IN SetToSeq(ok)
+  LET vs == SetToSeq(Vals(ty))  m == Len(vs)
+      all == [q \in 1..(m * m) |-> <<vs[((q - 1) \div m) + 1], vs[((q - 1) % m) + 1]>>]
+  IN IF Support(op, ty) = "no" THEN [q \in 1..m |-> <<vs[q], vs[q]>>]
+     ELSE SelectSeq(all, LAMBDA p : Safe(op, ty, p[1], p[2]) /\ Fits(ty, Apply(op, ty, p[1], p[2])))
 SmallCase(x) ==
   \E o \in DOMAIN Ops : \E t \in DOMAIN Types :
      /\ (o * 64 + t) % NSlices = Slice
@@ -68,7 +68,7 @@ SpecSmall == InitSmall /\ [][FALSE]_vars
 
 \* ------------------------------------------------------------------ sampling
 RandScalar(ty, lim) ==      \* lim > 0 bounds the magnitude (operators whose result grows), 0 = whole range with extremes
-  IF lim > 0 THEN LET m == IF lim < TMax(ty) THEN lim ELSE TMax(ty)  lo == IF ty.signed THEN 0 - m ELSE 0 IN RandomElement(lo..m)
+  IF lim > 0 THEN LET m0 == IF lim < TMax(ty) THEN lim ELSE TMax(ty)  m == IF m0 > 1000000000 THEN 1000000000 ELSE m0  lo == IF ty.signed THEN 0 - m ELSE 0 IN RandomElement(lo..m)
   ELSE LET pick == RandomElement(1..4) IN
        IF pick = 1 THEN RandomElement(SVals(ty))
        ELSE IF pick = 2 THEN RandomElement((IF ty.signed THEN -9 ELSE 0)..(IF TMax(ty) < 9 THEN TMax(ty) ELSE 9))
@@ -123,7 +123,7 @@ Lawful(x) ==
   CASE x.k = "rl" -> /\ Len(x.a) = Len(x.b)
                      /\ (Support(x.op, x.ty) # "no" => \A j \in DOMAIN x.a : Safe(x.op, x.ty, x.a[j], x.b[j]) /\ Fits(x.ty, Apply(x.op, x.ty, x.a[j], x.b[j])))
                      /\ (Support(x.op, x.ty) = "yes" /\ Len(x.a) > 0) =>
-                           \A j \in DOMAIN x.a : \A m \in {1, Len(x.a)} : OpLaws(x.op, x.ty, x.a[j], x.b[j], x.a[m])
+                           \A j \in DOMAIN x.a : OpLaws(x.op, x.ty, x.a[j], x.b[j], x.a[((j * 7) % Len(x.a)) + 1])
     [] x.k = "ar" -> Support(x.op, x.ty) # "no" => PartialFit(x.op, x.ty, x.v, Len(x.v))
     [] OTHER -> TRUE
 Laws == Lawful(c)
